@@ -13,9 +13,11 @@
 #include "acl/DomainData.h"
 #include "acl/SplayInserter.h"
 #include "anyp/Uri.h"
+#include "base/TextException.h"
 #include "cache_cf.h"
 #include "ConfigParser.h"
 #include "debug/Stream.h"
+#include "sbuf/Stream.h"
 #include "util.h"
 
 template<class T>
@@ -157,6 +159,11 @@ ACLDomainData::parse()
 {
     while (char *t = ConfigParser::strtokFile()) {
         Tolower(t);
+        // matchDomainName() skips all leading dots of its first argument, so
+        // SplayInserter<char*>::Compare() cannot find the "root" of such a
+        // value inside its own set: duplicate detection and removal break.
+        if (t[0] == '.' && t[1] == '.')
+            throw TextException(ToSBuf("domain name value must not start with two dots: ", t), Here());
         Acl::SplayInserter<char*>::Merge(domains, xstrdup(t));
     }
 }
